@@ -599,3 +599,26 @@ def generate(rng, opts=None, endian=None, n_packets=None, trees=None):
         e = endian or rng.choice(["little", "big"])
         return g.text(e), g
     raise RuntimeError("generator failed")
+
+
+def recursive_descriptions(rng):
+    """Legal recursion: a cycle of declarations is allowed when it goes through an array without static
+    size (nested TLV patterns).  Returned in one declaration order; the check permutes them."""
+    out = []
+    e = lambda: rng.choice(["little", "big"]) + "_endian_packets\n"
+    out.append(e() + "struct Container { _count_(records): 8, records: Record[] }\n\nstruct Record { tag: 8, inner: Container }\n")
+    out.append(e() + "struct Tlv { t: 8, _size_(v): 8, v: Tlv[] }\n\npacket Top { _size_(items): 16, items: Tlv[], crc: 8 }\n")
+    out.append(e() + "struct A { x: 8, _count_(bs): 8, bs: B[] }\n\nstruct B { y: 16, c: C }\n\nstruct C { z: 8, _size_(as): 8, as: A[] }\n")
+    out.append(e() + "struct Node { v: 8, _count_(kids): 8, kids: Node[] }\n\nstruct Wrap { n: Node, _size_(more): 8, more: Node[] }\n\npacket P { w: Wrap }\n")
+    k = rng.randint(2, 4)
+    names = ["R%d" % i for i in range(k)]
+    decls = []
+    for i, nme in enumerate(names):
+        nxt = names[(i + 1) % k]
+        if i == 0:
+            decls.append("struct %s { t%d: 8, _count_(n%d): 8, n%d: %s[] }" % (nme, i, i, i, nxt))
+        else:
+            decls.append("struct %s { t%d: 8, n%d: %s }" % (nme, i, i, nxt))
+    rng.shuffle(decls)
+    out.append(e() + "\n\n".join(decls) + "\n")
+    return out
